@@ -137,6 +137,11 @@ class Execution:
         """World step after a PENDING outcome. Returns True if something changed (wake source fired)."""
         b = self.backend
         changed = False
+        deferred = False
+        # a timer or external completion that landed while the invocation was still running is a wake-up
+        if any(a.get("world") and a["inv"] == b.inv and a["seq"] > self._inv_seq0 for a in b.applied[-200:]):
+            changed = True
+            self.rec("world", what="woken-by-event-during-invocation")
         if b.fire_due():
             changed = True
         for oid in list(b.awaiting_external()):
@@ -149,6 +154,7 @@ class Execution:
                 n = self._deliver_counts.get(oid, 0) + 1
                 self._deliver_counts[oid] = n
                 if n < rule.get("n", 2):
+                    deferred = True
                     continue
             if when in ("between", "after_pendings", "immediate"):
                 if self._deliver(op, rule):
@@ -166,6 +172,9 @@ class Execution:
             else:
                 b.fire_due()
             self.rec("world", what="timers", fired_until=t0)
+            return True
+        if deferred:
+            self.rec("world", what="spurious")
             return True
         return False
 
@@ -246,6 +255,10 @@ class Execution:
         inv_started = last_msg
         killed = False
         inflight_api = 0
+        active_fns = 0
+        idle_api = 0
+        spin_limit = opts.get("spin_api", 200)
+        msg_cap = opts.get("msg_cap", 30000)
 
         def respond(mid, resp):
             if mid:
@@ -285,12 +298,33 @@ class Execution:
                             return
 
         def handle(mid, tname, kind, pl):  # noqa: C901, PLR0912
-            nonlocal msg_n, api_in_inv, outcome, dseq, inflight_api
+            nonlocal msg_n, api_in_inv, outcome, dseq, inflight_api, active_fns, idle_api
             if kind in ("clock", "targeted_attached"):
                 self.rec(kind, **pl)
                 return
             n = msg_n
             msg_n += 1
+            if killed:
+                # sent before the process died but not yet read: it happened, but nothing is applied or answered
+                if kind == "api":
+                    self.rec("api", t=tname, n=None, n_inv=None, op=pl["op"], token=pl["kw"].get("CheckpointToken"),
+                             updates=pl["kw"].get("Updates") or [], msg_n=n, lost="request", late=True)
+                else:
+                    ev = self.rec(kind, t=tname, msg_n=n, late=True, **pl)
+                    self.enrich(ev, pl.get("path"))
+                    if kind == "fn_enter":
+                        self.entries[pl["path"]] = self.entries.get(pl["path"], 0) + 1
+                        ev["n"] = self.entries[pl["path"]]
+                return
+            if kind == "fn_enter" and pl.get("fnkind") not in ("handler", "child", "branch"):
+                active_fns += 1
+                idle_api = 0
+            elif kind == "fn_exit" and pl.get("fnkind") not in ("handler", "child", "branch"):
+                active_fns -= 1
+            if msg_n > msg_cap:
+                self.rec("spin", verdict="runaway", why="more than %d messages in one invocation" % msg_cap, api=api_in_inv)
+                kill()
+                return
             do_kill = crash is not None and crash.get("at") == n and not killed
             if kind == "api":
                 self.api_n += 1
@@ -326,6 +360,17 @@ class Execution:
                     resp = self.backend.get_state(kw.get("CheckpointToken"), kw.get("Marker"))
                 ev["applied"] = True
                 ev["aseq0"], ev["aseq1"] = seq0, self.backend.seq
+                if pl["op"] != "checkpoint":
+                    pass
+                elif self.backend.seq == seq0 and active_fns <= 0 and not self._held:
+                    idle_api += 1
+                    if idle_api > spin_limit:
+                        self.rec("spin", verdict="spin", api=api_in_inv,
+                                 why="%d consecutive API calls with no user function active and no change of the backend table" % idle_api)
+                        kill()
+                        return
+                else:
+                    idle_api = 0
                 ev["after"] = [(a.get("u") or {}).get("Id") and (a["u"]["Id"], a["u"]["Action"], a["status"]) for a in self.backend.applied if a["seq"] > seq0 and a.get("u")]
                 if do_kill:
                     ev["lost"] = "response"
@@ -516,6 +561,7 @@ class Execution:
                 fp = fp.get(self.inv, fp.get("default"))
             snap_status = {oid: op["Status"] for oid, op in self.backend.ops.items()}
             event = self.backend.begin_invocation(first_page=fp, page_size=pages.get("page_size"))
+            self._inv_seq0 = self.backend.seq
             self.rec("inv_start", first_page=fp, n_ops=len(self.backend.order),
                      terminal=[oid for oid, op in self.backend.ops.items() if op["Status"] in TERMINAL],
                      statuses={oid: op["Status"] for oid, op in self.backend.ops.items()},
@@ -539,6 +585,9 @@ class Execution:
                      now=self.clock.now())
             if any(e["kind"] == "hang" and e["inv"] == self.inv for e in self.trace[-50:]):
                 stop_reason = "hang"
+                break
+            if any(e["kind"] == "spin" and e["inv"] == self.inv for e in self.trace[-300:]):
+                stop_reason = "spin"
                 break
             if res["killed"] or res.get("died"):
                 if res.get("died"):
